@@ -3,8 +3,19 @@
 #include "walker.h"
 #include "ber.h"
 #include <algorithm>
+#include <cerrno>
+
+extern "C" void *sim_conv_decode(enum asn_transfer_syntax, asn_TYPE_descriptor_t *, FILE *, long, int);
 
 namespace {
+
+struct MemFile { const Bytes *b; size_t pos; };
+static ssize_t mf_read(void *c, char *buf, size_t n) {
+    MemFile *m = (MemFile *)c;
+    size_t k = std::min(n, m->b->size() - m->pos);
+    memcpy(buf, m->b->data() + m->pos, k); m->pos += k;
+    return (ssize_t)k;
+}
 
 struct Case {
     asn_TYPE_descriptor_t *td = nullptr;
@@ -143,6 +154,42 @@ static void exec_schedule(const Case &c, const std::vector<long> &deliveries, Ou
         sim_alloc_free_all_live();
     }
     if(o.violated) sim_alloc_free_all_live();
+}
+
+// The repository's own receiver: converter-example.c's data_decode_from_file() reading K copies of E from a
+// simulated file whose read size (-b) is the chunking. Oracle: K structures equal to the one-shot value, then clean EOF.
+static void exec_stream_loop(const Case &c, unsigned K, long bufsize, Outcome &o) {
+    Bytes stream; Bytes E(c.S.begin(), c.S.begin() + c.elen);
+    for(unsigned k = 0; k < K; k++) stream.insert(stream.end(), E.begin(), E.end());     // PDUs back to back
+    MemFile mf{&stream, 0};
+    cookie_io_functions_t io = {mf_read, nullptr, nullptr, nullptr};
+    FILE *f = fopencookie(&mf, "r", io);
+    if(!f) return;
+    setvbuf(f, nullptr, _IONBF, 0);
+    unsigned got = 0;
+    for(unsigned k = 0; k <= K && !o.violated; k++) {
+        void *st = nullptr; int err = 0;
+        status_progress();
+        bool ok = guardcall([&] { errno = 0; st = sim_conv_decode(syntax_ats(c.sy), c.td, f, bufsize, k == 0); err = errno; });
+        EV.ev("conv pdu %u bufsize %ld -> %s errno=%d", k, bufsize, !ok ? "ABORT" : st ? "structure" : "NULL", ok ? err : 0);
+        o.work += stream.size() / (K ? K : 1) + 64;
+        if(!ok) { o.violated = true; o.cls = "abort"; o.site = "stream-loop:" + abort_site(); o.detail = "assertion / exit() inside the repository's stream loop"; break; }
+        if(k == K) {
+            // how the example application words end-of-file is its own policy, not a decoder property: counted only
+            if(st) { G.add("c05.note.stream_loop_extra_pdu"); guardcall([&] { ASN_STRUCT_FREE(*c.td, st); }); }
+            else if(err != 0) G.add("c05.note.stream_loop_eof_errno");
+            break;
+        }
+        if(!st) { o.violated = true; o.cls = "stream-loop-short"; o.site = kind_name(kind_of(c.td)); o.detail = "stream of " + L(K) + " PDUs read with buffer size " + L(bufsize) + ": only " + L(got) + " decoded (errno " + L(err) + ")"; break; }
+        got++;
+        Fingerprint fp = fingerprint(c.td, st);
+        guardcall([&] { ASN_STRUCT_FREE(*c.td, st); });
+        if(fp.aborted) { o.violated = true; o.cls = "abort"; o.site = abort_site(); o.detail = "assertion while re-encoding a value decoded by the stream loop"; break; }
+        if(fp != c.ref_fp) { o.violated = true; o.cls = "stream-loop-value"; o.site = kind_name(kind_of(c.td)); o.detail = "PDU " + L(k) + " decoded through the stream loop (buffer size " + L(bufsize) + ") differs from the one-shot value"; break; }
+        o.resumed++;
+    }
+    fclose(f);
+    sim_alloc_free_all_live();
 }
 
 static std::string ops_text(const std::vector<long> &d) {
@@ -301,6 +348,19 @@ static void c05_run(uint64_t seed, uint64_t index, bool thorough) {
         run_sched(c, {(long)c.elen, -1}, "trailing_after");
         if(c.elen > 1) run_sched(c, {(long)(c.elen - 1), -1}, "trailing_with_last_byte");
     }
+    // (vii) the repository's own stream loop over a simulated file (no trailing bytes: the stream is K copies of E)
+    if(c.elen > 0 && c.elen <= 16384) {
+        unsigned reps = thorough ? 6 : 2;
+        for(unsigned i = 0; i < reps && g_case_work <= g_case_budget; i++) {
+            unsigned K = 1 + (unsigned)rsch.below(4);
+            long bufsize = 1 + (long)(rsch.chance(1, 3) ? rsch.below(8) : rsch.chance(1, 2) ? rsch.below(c.elen + 4) : rsch.below(8192));
+            Op op = mkop("conv"); op.attrs["pdus"] = L(K); op.attrs["bufsize"] = L(bufsize);
+            status_ops(op.str());
+            Outcome o; exec_stream_loop(c, K, bufsize, o);
+            g_case_work += o.work * K; G.add("c05.schedules"); G.add("c05.sched.stream_loop"); G.add("c05.fired.stream_loop_pdus", o.resumed);
+            if(o.violated) report_violation("C05", mk_sig(c, o), o.detail, c.head.head_str() + op.str());
+        }
+    }
     G.add("c05.fired.realloc_moved", (uint64_t)(sim_alloc_total_moves() - moves_before));
     if(G.n["c05.fired.chunk_boundary_resumed"] > resumed_before) G.seen("c05.nontrivial_cases", hash_str(c.head.head_str()));
     if(G.samples.size() < 4 && index % 7 == 0) G.samples.push_back(c.head.head_str() + "op deliver " + L(n / 2) + "\nop deliver rest\n");
@@ -318,6 +378,11 @@ static ReplayResult c05_replay(const Plan &p) {
     sim_alloc_always_move(p.get("realloc") == "move");
     std::string why;
     if(!prepare_reference(c, why)) { rr.skipped = true; rr.detail = "precondition: " + why; return rr; }
+    for(auto &op : p.ops) if(op.name == "conv") {
+        Outcome o; exec_stream_loop(c, (unsigned)op.attrl("pdus", 1), op.attrl("bufsize", 64), o);
+        rr.violated = o.violated; if(o.violated) { rr.sig = mk_sig(c, o); rr.detail = o.detail; }
+        return rr;
+    }
     std::vector<long> d;
     for(auto &op : p.ops) if(op.name == "deliver") d.push_back(op.args.empty() || op.args[0] == "rest" ? -1 : op.argl(0));
     Outcome o;
